@@ -127,7 +127,10 @@ class BinaryFileWriter(BaseIoWriter):
 
     def write_f32(self, x: float):
         """Write 32-bit floating point value."""
-        self.write_fmt("<f", x)
+        if isinstance(x, components.F32Bits):
+            self.write(x.raw32)
+        else:
+            self.write_fmt("<f", x)
 
     def write_u32(self, x: int):
         """Write unsigned 32-bit integer value."""
